@@ -178,3 +178,38 @@ Definition c12_reversal_example : bool :=
   end.
 Example C12_reversal_toll_once_example : c12_reversal_example = true.
 Proof. vm_compute. reflexivity. Qed.
+
+(* END TO END: liquidations (full or partial), funding settlements, deposits and withdrawals leave the fee pool's
+   balance exactly as it was - whole transactions, through the message tree *)
+Theorem C12_liquidate_tx_no_fee : forall f w s v t lim funds w',
+  exec_op f w (OEngine s (ELiquidate v t lim) funds) = Ok w' ->
+  let pool := e_feepool (ec (w_eng w)) in
+  pool <> A_ENGINE -> pool <> A_IFUND -> pool <> if_engine (w_if w) -> e_ifund (ec (w_eng w)) <> pool -> s <> pool ->
+  bal (w_tok w') pool = bal (w_tok w) pool.
+Proof. exact liquidate_tx_no_fee. Qed.
+Print Assumptions C12_liquidate_tx_no_fee.
+
+Theorem C12_pay_funding_tx_no_fee : forall f w s v funds w',
+  exec_op f w (OEngine s (EPayFunding v) funds) = Ok w' ->
+  let pool := e_feepool (ec (w_eng w)) in
+  pool <> A_ENGINE -> pool <> A_IFUND -> pool <> if_engine (w_if w) -> e_ifund (ec (w_eng w)) <> pool -> s <> pool ->
+  (forall l, e_liq (w_eng w) = Some l -> l <> pool) ->
+  bal (w_tok w') pool = bal (w_tok w) pool.
+Proof. exact pay_funding_tx_no_fee. Qed.
+Print Assumptions C12_pay_funding_tx_no_fee.
+
+Theorem C12_deposit_margin_tx_no_fee : forall f w t v amount funds w',
+  exec_op f w (OEngine t (EDepositMargin v amount) funds) = Ok w' ->
+  let pool := e_feepool (ec (w_eng w)) in
+  pool <> A_ENGINE -> pool <> A_IFUND -> pool <> if_engine (w_if w) -> t <> pool ->
+  bal (w_tok w') pool = bal (w_tok w) pool.
+Proof. exact deposit_margin_tx_no_fee. Qed.
+Print Assumptions C12_deposit_margin_tx_no_fee.
+
+Theorem C12_withdraw_margin_tx_no_fee : forall f w t v amount funds w',
+  exec_op f w (OEngine t (EWithdrawMargin v amount) funds) = Ok w' ->
+  let pool := e_feepool (ec (w_eng w)) in
+  pool <> A_ENGINE -> pool <> A_IFUND -> pool <> if_engine (w_if w) -> t <> pool ->
+  bal (w_tok w') pool = bal (w_tok w) pool.
+Proof. exact withdraw_margin_tx_no_fee. Qed.
+Print Assumptions C12_withdraw_margin_tx_no_fee.
